@@ -324,8 +324,30 @@ def hookRule (dirIngress : Bool) (q : Pod) : List PRule :=
     let cm := comment q.name q.ns
     [⟨[if dirIngress then .dst ⟨a, 32⟩ else .src ⟨a, 32⟩, .comment cm], .jump (.pod q.hash)⟩]
 
-/-- the filter table after a full sync from an empty state -/
-def compileTable (c : Cluster) (ps : List NetPol) (node : String) : Table :=
+/-- iptables' multiport match takes at most 15 ports (XT_MULTI_PORTS); a rule with more is refused at parse time
+    ("too many ports specified") and fails the whole iptables-restore batch -/
+def multiportMax : Nat := 15
+
+def PRule.portsOK (r : PRule) : Bool :=
+  r.ms.all (fun m => match m with | .dports ps => decide (ps.length ≤ multiportMax) | _ => true)
+
+/-- some rule galaxy emits for these policies carries more ports than multiport takes -/
+def overLimit (ps : List NetPol) : Bool := ps.any (fun p => (policyChain p).any (fun r => !r.portsOK))
+
+/-- the filter table after a full sync from an empty state when the policy batch is refused (`overLimit`): the sets
+    exist, no GLX-PLCY chain does, so every pod batch is refused as well (it jumps to a missing chain) — only what
+    ensureBasicChain installs is there and NOTHING is enforced -/
+def failedTable (c : Cluster) (ps : List NetPol) (node : String) : Table :=
+  if activePods c ps node = [] then
+    [(Chain.forward, []), (Chain.input, []), (Chain.output, [])]
+  else
+    [(Chain.forward, [⟨[], .jump .glxEgress⟩, ⟨[], .jump .glxIngress⟩]),
+     (Chain.input, [⟨[], .jump .glxEgress⟩]),
+     (Chain.output, [⟨[], .jump .glxIngress⟩]),
+     (Chain.glxIngress, []), (Chain.glxEgress, [])]
+
+/-- the filter table after a full sync from an empty state when every batch is accepted -/
+def compiledTable (c : Cluster) (ps : List NetPol) (node : String) : Table :=
   let act := activePods c ps node
   (if act = [] then
      [(Chain.forward, []), (Chain.input, []), (Chain.output, [])]
@@ -337,6 +359,10 @@ def compileTable (c : Cluster) (ps : List NetPol) (node : String) : Table :=
       (Chain.glxEgress, (act.filter (hookedEgress ps)).flatMap (hookRule false))]) ++
   act.map (fun q => (Chain.pod q.hash, podChain ps q)) ++
   ps.map (fun p => (Chain.plcy p.hash, policyChain p))
+
+/-- the filter table after a full sync from an empty state -/
+def compileTable (c : Cluster) (ps : List NetPol) (node : String) : Table :=
+  if overLimit ps then failedTable c ps node else compiledTable c ps node
 
 /-! ## Packet walk -/
 
@@ -513,7 +539,7 @@ def flowOK (c : Cluster) (ps : List NetPol) (node : String) (f : Flow) : Bool :=
   (f.hook != Hook.output || !srcEgressIsolatedHere c ps node f)
 
 def inFragment (c : Cluster) (ps : List NetPol) (node : String) (f : Flow) : Bool :=
-  wfCluster c ps && ps.all (polOK c) && oneDirection c ps node && flowOK c ps node f
+  wfCluster c ps && ps.all (polOK c) && oneDirection c ps node && flowOK c ps node f && !overLimit ps
 
 /-! ## Rendering (canonical dump form, Appendix B) and parsing of dump lines -/
 
@@ -734,9 +760,9 @@ structure Kern where
 
 /-- failure classes of rule submissions (what clause 4 of C15 is about) -/
 inductive Fail where
-  | restoreNoChain | restoreNoTarget | restoreNoSet | restoreBusy
-  | ensureNoChain | ensureNoTarget | ensureNoSet
-  | deleteNoTarget | deleteNoSet
+  | restoreNoChain | restoreNoTarget | restoreNoSet | restoreBusy | restoreTooManyPorts
+  | ensureNoChain | ensureNoTarget | ensureNoSet | ensureTooManyPorts
+  | deleteNoTarget | deleteNoSet | deleteTooManyPorts
   | addNoSet | createMismatch
   deriving DecidableEq, Repr
 
@@ -745,6 +771,9 @@ def Fail.render : Fail → String
   | .restoreNoTarget => "restore:no-target"
   | .restoreNoSet => "restore:no-set"
   | .restoreBusy => "restore:busy"
+  | .restoreTooManyPorts => "restore:too-many-ports"
+  | .ensureTooManyPorts => "ensure-rule:too-many-ports"
+  | .deleteTooManyPorts => "delete-rule:too-many-ports"
   | .ensureNoChain => "ensure-rule:no-chain"
   | .ensureNoTarget => "ensure-rule:no-target"
   | .ensureNoSet => "ensure-rule:no-set"
@@ -772,11 +801,12 @@ def setChain (t : Table) (c : Chain) (rs : List PRule) : Table :=
   if chainExists t c then t.map (fun kv => if kv.1 = c then (kv.1, rs) else kv) else t ++ [(c, rs)]
 
 inductive RefErr where
-  | noTarget | noSet
+  | noTarget | noSet | tooManyPorts
   deriving DecidableEq
 
 /-- a rule can only be submitted if its jump target chain and its sets exist -/
 def checkRefs (k : Kern) (t : Table) (r : PRule) : Option RefErr :=
+  if !r.portsOK then some .tooManyPorts else
   match r.tgt with
   | .jump c => if !chainExists t c then some .noTarget else if r.setRefs.all (setExists k.sets) then none else some .noSet
   | _ => if r.setRefs.all (setExists k.sets) then none else some .noSet
@@ -792,6 +822,7 @@ def applyCmd (k : Kern) (t : Table) : Cmd → Except Fail Table
     match checkRefs k t r with
     | some .noTarget => .error .restoreNoTarget
     | some .noSet => .error .restoreNoSet
+    | some .tooManyPorts => .error .restoreTooManyPorts
     | none =>
       match Tbl.get t c with
       | none => .error .restoreNoChain
@@ -816,6 +847,7 @@ def ensureRule (k : Kern) (prepend : Bool) (c : Chain) (r : PRule) : Kern × Lis
   match checkRefs k k.tbl r with
   | some .noTarget => (k, [.ensureNoTarget])
   | some .noSet => (k, [.ensureNoSet])
+  | some .tooManyPorts => (k, [.ensureTooManyPorts])
   | none =>
     match Tbl.get k.tbl c with
     | none => (k, [.ensureNoChain])
@@ -830,6 +862,7 @@ def deleteRule (k : Kern) (c : Chain) (r : PRule) : Kern × List Fail :=
   match checkRefs k k.tbl r with
   | some .noTarget => (k, [.deleteNoTarget])
   | some .noSet => (k, [.deleteNoSet])
+  | some .tooManyPorts => (k, [.deleteTooManyPorts])
   | none =>
     match Tbl.get k.tbl c with
     | none => (k, [])
